@@ -89,7 +89,8 @@ func main() {
 	if ents, err := os.ReadDir(*work); err == nil {
 		for _, en := range ents {
 			parts := strings.Split(en.Name(), ".")
-			if len(parts) == 3 && strings.HasPrefix(parts[0], "p") {
+			if len(parts) == 3 && parts[0] == "p"+*prop && parts[1] == *tier {
+				// an earlier run of this very check: superseded by this one
 				if _, err := os.Stat("/proc/" + parts[2]); err != nil {
 					os.RemoveAll(filepath.Join(*work, en.Name()))
 				}
